@@ -57,7 +57,8 @@ def _units(plans):
     every answer lists every step)."""
     units = []
     for label, sources, ops, depth in plans:
-        fix = max(1, depth - 2)
+        rest = next((k for k in range(1, depth) if len(ops) ** k >= 1000), depth - 1)
+        fix = depth - rest
         for flavour, src in sources:
             for pre in itertools.product(ops, repeat=fix):
                 units.append((label, flavour, src, list(pre), ops, depth - fix))
